@@ -33,6 +33,7 @@ import (
 	"fmt"
 	"net"
 	"os"
+	"path/filepath"
 	"strings"
 	"sync"
 	"time"
@@ -254,21 +255,16 @@ func setupFile(v6 bool, args ...string) (handler.Handler6, handler.Handler4, err
 	// when the 'autorefresh' argument was passed, watch the lease file for
 	// changes and reload the lease mapping on any event
 	if len(args) > 1 && args[1] == autoRefreshArg {
-		// creates a new file watcher
-		watcher, err := fsnotify.NewWatcher()
-		if err != nil {
-			return nil, nil, fmt.Errorf("failed to create watcher: %w", err)
-		}
-
 		// the watch follows the file, not its name: remember which file it is
 		// attached to (looked at before the watch is set: at worst an older
 		// one), to notice when the name is given to another file (rename over
 		// it, as editors and deployment tools do)
 		watched, _ := os.Stat(filename)
 
-		// have file watcher watch over lease file
-		if err = watcher.Add(filename); err != nil {
-			return nil, nil, fmt.Errorf("failed to watch %s: %w", filename, err)
+		// creates a new file watcher and has it watch over lease file
+		watcher, names, err := watchFile(filename)
+		if err != nil {
+			return nil, nil, err
 		}
 
 		// very simple watcher on the lease file to trigger a refresh on any event
@@ -279,18 +275,20 @@ func setupFile(v6 bool, args ...string) (handler.Handler6, handler.Handler4, err
 				if !ok {
 					return
 				}
+				if !names[filepath.Base(ev.Name)] {
+					// something else in the directory
+					continue
+				}
 				// (a removed file takes its watch with it, and its inode number may be
-				// reused by the file that replaces it)
-				gone := ev.Has(fsnotify.Remove) || ev.Has(fsnotify.Rename)
+				// reused by the file that replaces it, at once or after a while)
+				gone := ev.Has(fsnotify.Remove) || ev.Has(fsnotify.Rename) || ev.Has(fsnotify.Create)
 				if cur, err := os.Stat(filename); err == nil && (gone || watched == nil || !os.SameFile(watched, cur)) {
 					// watch the new file with a new watcher: adding to a watcher
 					// whose event loop is running is racy in fsnotify
-					if nw, err := fsnotify.NewWatcher(); err != nil {
-						log.Warningf("failed to watch %s again: %s", filename, err)
-					} else if err := nw.Add(filename); err != nil {
-						log.Warningf("failed to watch %s again: %s", filename, err)
-						nw.Close()
+					if nw, nn, err := watchFile(filename); err != nil {
+						log.Warningf("%s", err)
 					} else {
+						names = nn
 						watcher.Close()
 						watcher, watched = nw, cur
 					}
@@ -310,6 +308,39 @@ func setupFile(v6 bool, args ...string) (handler.Handler6, handler.Handler4, err
 	h6 := func(req, resp dhcpv6.DHCPv6) (dhcpv6.DHCPv6, bool) { return handle6(state.lookup, req, resp) }
 	h4 := func(req, resp *dhcpv4.DHCPv4) (*dhcpv4.DHCPv4, bool) { return handle4(state.lookup, req, resp) }
 	return h6, h4, nil
+}
+
+// watchFile returns a new watcher for the lease file, with the names that mean
+// the lease file in its events. What is watched is the directory the name is in
+// (and the one the file really is in, when the name is a symbolic link): that
+// reports changes of the file's content as well as the name being given to a
+// new file, also when there was none for a moment (rm and cp, an editor that
+// unlinks before it writes). Only where a directory cannot be watched the file
+// itself is, which sees no further than the file that has the name now.
+func watchFile(filename string) (*fsnotify.Watcher, map[string]bool, error) {
+	watcher, err := fsnotify.NewWatcher()
+	if err != nil {
+		return nil, nil, fmt.Errorf("failed to create watcher: %w", err)
+	}
+	names := map[string]bool{filepath.Base(filename): true}
+	dirs := []string{filepath.Dir(filename)}
+	if target, err := filepath.EvalSymlinks(filename); err == nil {
+		names[filepath.Base(target)] = true
+		if filepath.Dir(target) != filepath.Clean(dirs[0]) {
+			dirs = append(dirs, filepath.Dir(target))
+		}
+	}
+	for _, dir := range dirs {
+		if err = watcher.Add(dir); err != nil {
+			// (not being allowed to list the directory never kept the plugin from starting)
+			log.Warningf("failed to watch %s, a lease file that is removed and created again will go unnoticed: %s", dir, err)
+			if err = watcher.Add(filename); err != nil {
+				watcher.Close()
+				return nil, nil, fmt.Errorf("failed to watch %s: %w", filename, err)
+			}
+		}
+	}
+	return watcher, names, nil
 }
 
 // loadFromFile (re)loads the mapping of this instance, and returns the number of
